@@ -85,6 +85,8 @@ def mutations(rnd, img, n_mut):
     n = len(img)
     if n <= 24:
         out += [("prefix", img[:k]) for k in range(n)]       # short images: every prefix
+        # ... and every byte with its top bit set (the sign bit of whichever signed field or counter it ends)
+        out += [("sign", img[:k] + bytes([img[k] | 0x80]) + img[k + 1:]) for k in range(n) if img[k] < 0x80]
     for _ in range(n_mut):
         r = rnd.random()
         b = bytearray(img)
